@@ -449,7 +449,7 @@ func cmdCheck(args []string) int {
 			if perSite[k] == 1 {
 				perSite[k] += unrefined[c.ob.Harness+"/"+c.ob.Label]
 			}
-			if perSite[k]-unrefined[c.ob.Harness+"/"+c.ob.Label] <= 9 {
+			if perSite[k]-unrefined[c.ob.Harness+"/"+c.ob.Label] <= 12 {
 				kept = append(kept, c)
 			}
 		}
